@@ -23,7 +23,13 @@ class Impl:
         self.meta = classes
         self.cls = _load_classes(classes)
         self.idx = {c["name"]: i for i, c in enumerate(classes)}
-        self.comps = {c["name"]: c for c in composites}
+        self.table_comps = {c["name"]: c for c in composites}
+        bases = (S._feature_flag, S._value_context, S._dtype_value_context)
+        # composites are discovered at run time (any other class of the module with the context protocol)
+        self.comps = {n: v for n, v in vars(S).items() if isinstance(v, type) and v.__module__ == S.__name__
+                      and hasattr(v, "__enter__") and hasattr(v, "__exit__") and not issubclass(v, bases)
+                      and not n.startswith("_")}
+        self.bases = bases
         self.codes = {}
         self.initial = [self.raw(i) for i in range(len(self.cls))]
 
@@ -144,6 +150,8 @@ def run_history(impl, hist, want_lines=True):
     """Run on the real library.  Returns (lean_lines, impl_states, spec_failures)."""
     impl.reset()
     objs, parts, lines, states, fails = {}, {}, [], [], []
+    fails_unmodelled = []
+    desync = [False]
     active_count = {}
     before_enter = {}
     reentered = set()
@@ -183,21 +191,30 @@ def run_history(impl, hist, want_lines=True):
             emit(f"new {i} {serial[0]} {' '.join(inst)}")
         elif ev[0] == "newc":
             _, o, name, kw = ev
-            comp = impl.comps[name]
+            comp = impl.table_comps.get(name)
             obj = getattr(impl.S, name)(**kw)
             objs[o] = obj
-            parts[o] = []
+            # part contexts as found on the object at run time (attributes, or containers of contexts)
+            found = []
+            for attr, v in vars(obj).items():
+                vs = v if isinstance(v, (list, tuple)) else (list(v.values()) if isinstance(v, dict) else [v])
+                for j, w in enumerate(vs):
+                    if isinstance(w, impl.bases) and type(w).__name__ in impl.idx:
+                        found.append((attr if len(vs) == 1 else f"{attr}[{j}]", w))
             byattr = {}
-            for attr, clsname, _ in comp["parts"]:
-                i = impl.idx[clsname]
-                po = getattr(obj, attr)
+            for attr, po in found:
+                i = impl.idx[type(po).__name__]
                 inst = impl.code(po.state, True) if impl.meta[i]["base"] == "_feature_flag" else impl.code(po._instance_value)
                 serial[0] += 1
                 byattr[attr] = (i, serial[0])
-                parts[o].append((i, serial[0]))
                 emit(f"new {i} {serial[0]} {inst} n n")
-            parts[o] = {"enter": [byattr[a] for a in comp["enter"]], "exit": [byattr[a] for a in comp["exit"]],
-                        "all": list(byattr.values())}
+            if comp is not None and sorted(a for a, _, _ in comp["parts"]) == sorted(byattr):
+                parts[o] = {"enter": [byattr[a] for a in comp["enter"]], "exit": [byattr[a] for a in comp["exit"]],
+                            "all": list(byattr.values()), "modelled": True}
+            else:  # the table does not describe this composite: property checks only, no model lines
+                parts[o] = {"enter": list(byattr.values()), "exit": list(byattr.values()), "all": list(byattr.values()),
+                            "modelled": False}
+                fails_unmodelled.append(name)
         elif ev[0] == "enter":
             o = ev[1]
             p = parts[o]
@@ -209,6 +226,8 @@ def run_history(impl, hist, want_lines=True):
             objs[o].__enter__()
             touched = {i for i, _ in seq}
             # emit one line per part; intermediate impl states are not observable -> compare only the last
+            if isinstance(p, dict) and not p.get("modelled", True):
+                desync[0] = True
             for j, (i, k) in enumerate(seq):
                 lines.append(f"enter {i} {k}")
                 states.append(None if j < len(seq) - 1 else impl.state())
@@ -244,6 +263,9 @@ def run_history(impl, hist, want_lines=True):
         for i in range(len(impl.cls)):
             if i not in touched and now[i] != prev[i]:
                 fails.append((f"cross-talk: {ev[0]} changed {impl.meta[i]['name']} {prev[i]} -> {now[i]}", ev))
+    if desync[0]:  # a composite the table does not describe was used: no model comparison for this history
+        states = [None] * len(states)
+    run_history.unmodelled = sorted(set(fails_unmodelled))
     return lines, states, fails
 
 
@@ -362,6 +384,8 @@ def run(chk, histories=None):
         for ev in hist:
             chk.count("ev:" + ev[0])
         chk.count("well_nested" if well_nested(hist) else "not_well_nested")
+        for nm in getattr(run_history, "unmodelled", []):
+            chk.proof_break("translator(C17Table)", f"composite {nm} is not described by the generated table (parts/enter/exit lists)")
         if fails:
             small = shrink(impl, hist, lambda h: bool(spec_fails(impl, h)))
             what = spec_fails(impl, small)
